@@ -123,7 +123,7 @@ def enumerate_cases(tier):
             yield {"cls": "RTFFigure", "field": field, "kind": "figure", "form": "scalar", "shape": [1, 1],
                    "pos": [0, 0], "bad": bad, "fill": [legal[0]]}
     for rule in DOC_RULES:
-        for variant in range(8 if rule in ("multi_section_column_missing", "margin_length", "figure_missing_file") else 4):
+        for variant in range(8 if rule in ("multi_section_column_missing", "margin_length", "figure_missing_file", "df_and_figure") else 4):
             yield {"cls": "RTFDocument", "field": rule, "kind": "doc", "form": "rule", "shape": [1, 1],
                    "pos": [variant, 0], "bad": None, "fill": []}
 
@@ -237,6 +237,10 @@ def doc_rule(rule, variant, bad: bool):
     if rule == "df_and_figure":
         p = _png(os.path.join(work, f"c19fig_{os.getpid()}.png"))
         if bad:
+            if variant % 8 >= 4:
+                # a DataFrame together with an RTFFigure that names no file at all
+                fig = rtf.RTFFigure() if variant % 2 == 0 else rtf.RTFFigure(figures=[])
+                return lambda: rtf.RTFDocument(df=df if variant % 4 < 6 else [df], rtf_figure=fig)
             return lambda: rtf.RTFDocument(df=df if variant % 2 == 0 else [df], rtf_figure=rtf.RTFFigure(figures=p),
                                            **({} if variant % 2 == 0 else {"rtf_body": [rtf.RTFBody()]}))
         return lambda: rtf.RTFDocument(rtf_figure=rtf.RTFFigure(figures=p))
